@@ -417,7 +417,12 @@ def _shrink_job(task):
                 break
         else:
             break
-    return {'reproduced': True, 'node': cur, 'prefix': pre, 'rec': rec, 'why': why}
+    conf = next((o[5:] for o in objs if o.startswith('conf:')), None)
+    default_too = True
+    if conf is not None:
+        objs = [o for o in objs if not o.startswith('conf:')]
+        default_too = fails(cur, pre) is not None
+    return {'reproduced': True, 'node': cur, 'prefix': pre, 'rec': rec, 'why': why, 'conf': None if default_too else conf}
 
 
 def settle(ex: Explore, candidates: dict, pl, max_shrinks: int):
@@ -453,7 +458,8 @@ def settle(ex: Explore, candidates: dict, pl, max_shrinks: int):
             ex.extra.setdefault('unreproduced_in_isolation', []).append([entry, label, k0])
             continue
         node = sh['node']
-        key = f'C11:{entry}:{label}:{kind(node)}' + (' after ' + ' ; '.join(kind(p) for p in sh['prefix']) if sh['prefix'] else '')
+        key = f'C11:{entry}:{label}:{kind(node)}' + (' after ' + ' ; '.join(kind(p) for p in sh['prefix']) if sh['prefix'] else '') + \
+            (f' [only under conf={sh["conf"]}]' if sh.get('conf') else '')
         if key not in known:
             fresh.add(key)
         ex.failures.append(Failure(
@@ -487,7 +493,10 @@ def explore_hints(ex: Explore, rng: random.Random, fam: dict, n_hints: int, batc
     if cur:
         batches.append(cur)
     batches.sort(key=lambda b: b[0][0] != 'deep')          # start the slow ones first
-    jobs = [{'hints': [n for _, n in b], 'apis': c11_run.APIS, 'objs': rng.sample(sorted(c11_run.OBJS), 3),
+    # 40% of the batches run under a non-default configuration (numeric tower / user overrides): the reducers take
+    # other paths there (hint_overrides is consulted for every node)
+    jobs = [{'hints': [n for _, n in b], 'apis': c11_run.APIS,
+             'objs': rng.sample(sorted(c11_run.OBJS), 3) + rng.choice([[], [], [], ['conf:tower'], ['conf:overrides']]),
              'timeout': 90 if b[0][0] == 'deep' else 120} for b in batches]
     results = pl.map(batch_job, jobs, chunksize=1)
     outcomes = collections.Counter()
@@ -724,9 +733,10 @@ def corpus():
 def explore_corpus(ex: Explore, fam, pl):
     from ..impl import c11_hints as H
     from ..impl import c11_run
-    jobs = [{'hints': [n], 'apis': c11_run.APIS, 'objs': ['int', 'list_int', 'str'], 'timeout': 120} for n in corpus()]
+    jobs = [{'hints': [n], 'apis': c11_run.APIS, 'objs': ['int', 'list_int', 'str'] + cf, 'timeout': 120}
+            for n in corpus() for cf in ([], ['conf:tower'])]
     found = {}
-    for node, job, res in zip(corpus(), jobs, pl.map(batch_job, jobs, chunksize=1)):
+    for node, job, res in zip([n for n in corpus() for _ in (0, 1)], jobs, pl.map(batch_job, jobs, chunksize=1)):
         if 'recs' not in res:
             continue
         for rec in res['recs'][0]:
